@@ -1,5 +1,6 @@
 """Which harness modules decide which property."""
 PROPERTIES = {
+    "C07": ["harness.C07_subscribe"],
     "C03": ["harness.C03_order"],
     "C02": ["harness.C02_execute"],
     "C20": ["harness.C20_schema_validation"],
